@@ -214,6 +214,11 @@ int main(int argc, char** argv)
                 }
                 int used = 0;
                 Plan failing = p;
+                if (!out.executed_schedule.empty())
+                {
+                    failing.explicit_schedule = true;
+                    failing.schedule = out.executed_schedule;
+                }
                 for (auto& v : out.viol)
                     if (v.cls() == cls && v.params.type == Json::Obj && !v.params.o.empty())
                     {
